@@ -88,6 +88,10 @@ func (t *c02tr) intE(e ast.Expr) string {
 	case *ast.SelectorExpr:
 		return t.v(v.Sel.Name)
 	case *ast.CallExpr:
+		if id, ok := v.Fun.(*ast.Ident); ok && (id.Name == "uint64" || id.Name == "int64" || id.Name == "int") && len(v.Args) == 1 {
+			// an integer conversion (no wrap-around is modelled: the operands are lengths and indices)
+			return t.intE(v.Args[0])
+		}
 		if id, ok := v.Fun.(*ast.Ident); ok && id.Name == "len" && len(v.Args) == 1 {
 			switch a := v.Args[0].(type) {
 			case *ast.Ident:
@@ -391,6 +395,154 @@ func c02Guards(c *Ctx, sb *strings.Builder) {
 	c.Fingerprint("pkg/matchers/fastregex/re2.go", "createGroupNameTable")
 }
 
+
+// ---- the two batching loops of batcher.go as statement text (verifTrace calls left out)
+
+func c02IsTrace(st ast.Stmt) bool {
+	es, ok := st.(*ast.ExprStmt)
+	if !ok {
+		return false
+	}
+	call, ok := es.X.(*ast.CallExpr)
+	if !ok {
+		return false
+	}
+	id, ok := call.Fun.(*ast.Ident)
+	return ok && id.Name == "verifTrace"
+}
+
+func c02StmtStr(c *Ctx, st ast.Stmt) string {
+	return strings.Join(strings.Fields(c.Print(st)), "")
+}
+
+func c02StmtList(c *Ctx, list []ast.Stmt) []string {
+	out := []string{}
+	for _, st := range list {
+		if !c02IsTrace(st) {
+			out = append(out, c02StmtStr(c, st))
+		}
+	}
+	return out
+}
+
+// c02BatchLoop emits, for one of the loops: the statements before the `for` that mention the batch, the
+// initial batchStart, the loop condition, the body in front of its final `if`, that `if`'s condition and body,
+// and the `if` after the loop.  Anything of another shape is reported as untranslatable.
+func c02BatchLoop(c *Ctx, sb *strings.Builder, name, fn string) {
+	fd := c.Func("pkg/extractor/batchers/batcher.go", fn)
+	bad := func() { sb.WriteString(untranslatable(name)) }
+	if fd == nil || fd.Body == nil {
+		bad()
+		return
+	}
+	var pre []string
+	start := int64(-1)
+	var loop *ast.ForStmt
+	var after []ast.Stmt
+	for i, st := range fd.Body.List {
+		if fs, ok := st.(*ast.ForStmt); ok {
+			loop = fs
+			after = fd.Body.List[i+1:]
+			break
+		}
+		if c02IsTrace(st) {
+			continue
+		}
+		txt := c02StmtStr(c, st)
+		if !strings.Contains(txt, "batch") || strings.HasPrefix(txt, "lastBatchFlush:=") {
+			continue
+		}
+		if ds, ok := st.(*ast.DeclStmt); ok {
+			if gd, ok := ds.Decl.(*ast.GenDecl); ok && len(gd.Specs) == 1 {
+				if vs, ok := gd.Specs[0].(*ast.ValueSpec); ok && len(vs.Names) == 1 && vs.Names[0].Name == "batchStart" && len(vs.Values) == 1 {
+					if n, ok := IntLit(vs.Values[0]); ok {
+						start = n
+						continue
+					}
+				}
+			}
+		}
+		pre = append(pre, txt)
+	}
+	if loop == nil || loop.Init != nil || loop.Post != nil || loop.Cond == nil || start < 0 {
+		bad()
+		return
+	}
+	var body []ast.Stmt
+	for _, st := range loop.Body.List {
+		if !c02IsTrace(st) {
+			body = append(body, st)
+		}
+	}
+	if len(body) == 0 {
+		bad()
+		return
+	}
+	fl, ok := body[len(body)-1].(*ast.IfStmt)
+	if !ok || fl.Else != nil || fl.Init != nil {
+		bad()
+		return
+	}
+	var tails []ast.Stmt
+	for _, st := range after {
+		if !c02IsTrace(st) {
+			tails = append(tails, st)
+		}
+	}
+	if len(tails) != 1 {
+		bad()
+		return
+	}
+	tl, ok := tails[0].(*ast.IfStmt)
+	if !ok || tl.Else != nil || tl.Init != nil {
+		bad()
+		return
+	}
+	fmt.Fprintf(sb, "/-- `%s` (batcher.go): statements before the loop that mention the batch -/\ndef %s_pre : List String := %s\n", fn, name, leanStrList(pre))
+	fmt.Fprintf(sb, "def %s_start : Nat := %d\n", name, start)
+	fmt.Fprintf(sb, "def %s_loopCond : String := %s\n", name, leanStr(exprStr(c, loop.Cond)))
+	fmt.Fprintf(sb, "def %s_head : List String := %s\n", name, leanStrList(c02StmtList(c, body[:len(body)-1])))
+	fmt.Fprintf(sb, "def %s_cond : String := %s\n", name, leanStr(exprStr(c, fl.Cond)))
+	fmt.Fprintf(sb, "def %s_flush : List String := %s\n", name, leanStrList(c02StmtList(c, fl.Body.List)))
+	fmt.Fprintf(sb, "def %s_tailCond : String := %s\n", name, leanStr(exprStr(c, tl.Cond)))
+	fmt.Fprintf(sb, "def %s_tail : List String := %s\n", name, leanStrList(c02StmtList(c, tl.Body.List)))
+	c.Fingerprint("pkg/extractor/batchers/batcher.go", fn)
+}
+
+// c02Worker: how the worker walks a batch and numbers its lines (extractor.go asyncWorker)
+func c02Worker(c *Ctx, sb *strings.Builder) {
+	fd := c.Func("pkg/extractor/extractor.go", "Extractor.asyncWorker")
+	var rng *ast.RangeStmt
+	var call *ast.CallExpr
+	if fd != nil {
+		ast.Inspect(fd, func(n ast.Node) bool {
+			switch v := n.(type) {
+			case *ast.RangeStmt:
+				if rng == nil {
+					rng = v
+				}
+			case *ast.CallExpr:
+				if se, ok := v.Fun.(*ast.SelectorExpr); ok && se.Sel.Name == "processLineSync" && call == nil {
+					call = v
+				}
+			}
+			return true
+		})
+	}
+	if rng == nil || call == nil || len(call.Args) != 3 || rng.Key == nil || rng.Value == nil {
+		sb.WriteString(untranslatable("workerCall"))
+		return
+	}
+	var args []string
+	for _, a := range call.Args {
+		args = append(args, exprStr(c, a))
+	}
+	fmt.Fprintf(sb, "/-- the worker's loop over a batch: `for <key>, <value> := range <x>` and the arguments of `processLineSync` -/\ndef workerRange : List String := %s\ndef workerCall : List String := %s\n",
+		leanStrList([]string{exprStr(c, rng.Key), exprStr(c, rng.Value), exprStr(c, rng.X)}), leanStrList(args))
+	c02Int(c, sb, "workerLineNum", call.Args[1])
+	c.Fingerprint("pkg/extractor/extractor.go", "Extractor.asyncWorker")
+}
+
 func init() {
 	RegisterGen("C02", func(c *Ctx) string {
 		var sb strings.Builder
@@ -514,6 +666,9 @@ func init() {
 		c.Fingerprint("pkg/extractor/sliceSpaceExpressionContext.go", "SliceSpaceExpressionContext.GetKey")
 		c.Fingerprint("pkg/extractor/sliceSpaceExpressionContext.go", "SliceSpaceExpressionContext.array")
 		c02Guards(c, &sb)
+		c02BatchLoop(c, &sb, "batchLoopPlain", "Batcher.syncReaderToBatcher")
+		c02BatchLoop(c, &sb, "batchLoopTimed", "Batcher.syncReaderToBatcherWithTimeFlush")
+		c02Worker(c, &sb)
 		sb.WriteString("\nend Rare.Gen.C02\n")
 		return sb.String()
 	})
